@@ -400,7 +400,12 @@ class Broker:
     def live_timers(self):
         while self.timers and self.timers[0].cancelled:
             heapq.heappop(self.timers)
-        return [t for t in self.timers if not t.cancelled]
+        live = [t for t in self.timers if not t.cancelled]
+        if len(self.timers) > 32 and len(live) * 2 < len(self.timers):
+            # cancelled timers with far deadlines (e.g. the time-out of every completed task) would otherwise pile up in the heap
+            self.timers = list(live)
+            heapq.heapify(self.timers)
+        return live
 
     def due_timers(self):
         return sorted(t for t in self.live_timers() if t.deadline <= self.clock.now)
